@@ -109,7 +109,31 @@ def run_C12(ctx, E):
     stage_record_trace(ctx, E, "rot", "C12_Trace", "C12_Trace.cfg", heap="8g")
 
 
+# ------------------------------------------------------------------ C11
+def run_C11(ctx, E):
+    ctx.exhaustive = True
+    stage_mc_replay(ctx, E, "upper", "C11_MC", "C11_MC_%s.cfg" % ctx.tier)
+    stage_mc_replay(ctx, E, "mixedU", "C11_MC", "C11_MC_%s_mixed.cfg" % ctx.tier)
+    stage_record_trace(ctx, E, "calls", "C11_Trace", "C11_Trace.cfg", heap="8g")
+
+
 PROPS = {
+    "C11": dict(run=run_C11,
+                technique="TLC exhaustive evaluation of set-semantics IUPAC definitions (Nucleotides.tla) with theorem "
+                          "invariants, all emitted cases replayed on the real functions, plus TLC trace validation",
+                level_text="every word over the 15 IUPAC codes to length 3 (quick) / 5 (thorough) and over the 32 "
+                           "mixed-case letters incl. U to length 2 / 3 is a TLC state; the clauses (length/case, "
+                           "rc = reverse o complement, involution, anti-homomorphism at every split, palindrome = "
+                           "fixpoint, expansion exact/duplicate-free/commuting with rc) are invariants on the "
+                           "definition, and ReverseComplement, Complement, Reverse, IsPalindromic, AllVariantsIUPAC "
+                           "must equal the definition on every state; recorded calls on random strings to 10^4 "
+                           "letters are judged letter by letter by C11_Trace",
+                level_note="trusted: TLC, community modules, my transcription of the IUPAC code sets; the complement "
+                           "table is derived from base-set complementation, not copied from poly",
+                rule="S->I: one case per TLC state (word); non-trivial = non-empty word. I->S: random / palindromic "
+                     "strings (events rc, cat) and low-ambiguity words (event var)",
+                assumptions=["AllVariantsIUPAC output is compared as a bag, case-insensitively",
+                             "the empty word may expand to one empty variant or to none"]),
     "C12": dict(run=run_C12,
                 technique="TLC exhaustive evaluation of a declarative least-rotation definition (Rotation.tla) with "
                           "all emitted cases replayed on seqhash.RotateSequence, plus TLC trace validation of recorded calls",
